@@ -46,7 +46,7 @@ def natural_scale(m, s, coef):
     for k, c in enumerate(coef):
         if c == 0:
             continue
-        a = float(mom[k]) if k % 2 == 0 else (float(mom[k - 1]) * float(mom[k + 1])) ** 0.5
+        a = float(mom[k]) if k % 2 == 0 else float(mom[k - 1]) ** 0.5 * float(mom[k + 1]) ** 0.5      # (the product of the two moments may underflow for v = 1e-6)
         tot += abs(c) * a
     return max(tot, 1e-300)
 
@@ -78,20 +78,37 @@ def logp(mp, kind, par, y, f):
     raise ValueError(kind)
 
 
-def gauss_integral(mp, g, m, v, kinks=()):
-    """adaptive integration of g(f) N(f; m, v) over m +- 14 sd (the tail beyond is < 1e-43 of the mass), split at the kinks"""
+def gauss_integral(mp, g, m, v, kinks=(), fine=False):
+    """adaptive integration of g(f) N(f; m, v) over m +- 14 sd (the tail beyond is < 1e-43 of the mass), split at the kinks;
+    fine: one panel per standard deviation instead of six panels (integrands whose logarithm has a slope of many units per sd, e.g. Beta with scale 100 or
+    a Student-t observed 30 scales away: the 6-panel split is only good to ~1e-6 there)"""
     sd = mp.sqrt(v)
-    pts = [m - 14 * sd, m - 6 * sd, m - 2 * sd, m, m + 2 * sd, m + 6 * sd, m + 14 * sd]
+    pts = [m + k * sd for k in range(-14, 15)] if fine else [m - 14 * sd, m - 6 * sd, m - 2 * sd, m, m + 2 * sd, m + 6 * sd, m + 14 * sd]
     pts += [k for k in kinks if m - 14 * sd < k < m + 14 * sd]
     pts = sorted(set(pts))
     return mp.quad(lambda f: g(f) * mp.npdf(f, m, sd), pts)
 
 
-def ref_integrals(mp, kind, par, m, v, y):
+def ref_integrals(mp, kind, par, m, v, y, fine=False):
     """(E log p(y|f), log E p(y|f)) for f ~ N(m, v)"""
     m, v, y = mp.mpf(m), mp.mpf(v), mp.mpf(y)
     par = {k: mp.mpf(x) for k, x in par.items()}
     kinks = [y] if kind == "lap" else []
-    elp = gauss_integral(mp, lambda f: logp(mp, kind, par, y, f), m, v, kinks)
-    lm = mp.log(gauss_integral(mp, lambda f: mp.exp(logp(mp, kind, par, y, f)), m, v, kinks))
+    elp = gauss_integral(mp, lambda f: logp(mp, kind, par, y, f), m, v, kinks)          # the log density is tame: six panels are good to 1e-30 (measured)
+    lm = mp.log(gauss_integral(mp, lambda f: mp.exp(logp(mp, kind, par, y, f)), m, v, kinks, fine))
     return elp, lm
+
+
+# ---- closed forms for the Laplace conditional when the whole rule lies on one side of the observation -------------------------------
+def laplace_one_sided(mp, noise, m, v, y):
+    """f ~ N(m, v), |y - m| >= 12 sd: (E log p, log E p) of Laplace(loc f, scale b = sqrt(noise)).
+    E|y - f| is the folded-normal mean (equal to |y - m| up to sd phi(12) ~ 1e-32 sd);
+    E exp(-|y - f| / b) = exp(-|y - m| / b + v / (2 b^2)) Phi((|y - m| - v / b) / sd) + exp(|y - m| / b + v / (2 b^2)) Phi(-(|y - m| + v / b) / sd)  (exact)"""
+    noise, m, v, y = mp.mpf(noise), mp.mpf(m), mp.mpf(v), mp.mpf(y)
+    b, sd, d = mp.sqrt(noise), mp.sqrt(v), abs(y - m)
+    e_abs = sd * mp.sqrt(2 / mp.pi) * mp.exp(-d * d / (2 * v)) + d * mp.erf(d / (sd * mp.sqrt(2)))
+    elp = -mp.log(2 * b) - e_abs / b
+    a = v / (2 * noise)
+    t1 = mp.exp(-d / b + a) * mp.ncdf((d - v / b) / sd)
+    t2 = mp.exp(d / b + a) * mp.ncdf(-(d + v / b) / sd)
+    return elp, mp.log((t1 + t2) / (2 * b))
